@@ -63,7 +63,11 @@ func minkowskiInternal(pattern Path64, path Path64, isSum bool, isClosed bool) P
 		tmp = append(tmp, path2)
 	}
 
-	result := make(Paths64, 0, (pathLen-delta)*patLen)
+	resultCap := (pathLen - delta) * patLen
+	if resultCap < 0 {
+		resultCap = 0
+	}
+	result := make(Paths64, 0, resultCap)
 	g := 0
 	if isClosed {
 		g = pathLen - 1
